@@ -74,6 +74,7 @@ def run(eng, ctx, reader_side=True):
     sockf = eng.socket_field
     for f in (rd, rl, rv, init):
         ctx.touch(func=f.qualname, file=eng.repo.relpath(mod))
+    SH.class_level_state(eng, ctx, "C13.D6", classes={eng.socket_cls})  # a buffer shared between wrappers would hand one connection's bytes to another
     sr = eng.symeval(rd.qualname)
     # ---- the buffer field: the field whose prefix `read` returns
     numP = ("param", rd.params[1]) if len(rd.params) > 1 else None
